@@ -23,7 +23,9 @@ from mc.codec import row_eq, show
 
 PROPERTY = 'C15'
 ASSUMPTIONS = [
-    'trees have string keys without dots and NO empty branches (flattening loses an empty branch by construction); leaves are None, ints, '
+    'trees have string keys and, for the round trip, NO empty branches (flattening loses an empty branch by construction); suite edge_trees adds keys that '
+    'contain a dot (paths then spelt as tuples / lists only: the dotted-string spelling is ambiguous there) and, for the merge only, t-trees with empty '
+    'branches (an EMPTY branch of u has no leaves to contribute; what it does to t is not stated and not exercised); leaves are None, ints, '
     'strings and lists -- dictable / dict-subclass LEAVES are excluded (a dict instance is always a branch here)',
     'trees are compared as plain nested dicts (recursive == on the dict content); the TYPES of result branches (dict vs dictattr vs Dict), '
     'the key ORDER of a result and whether a result shares untouched branches or leaves with its operands are not stated and not checked',
@@ -550,6 +552,132 @@ def check_pairs(case):
     return out
 
 
+# ------------------------------------------------------------------------------------------------ suite: edge_trees
+# (1) keys that CONTAIN a dot ('a.b' next to a -> b): such a key is one key; paths are spelt as tuples / lists only (the dotted spelling is ambiguous there)
+# (2) trees t holding EMPTY branches ({} below the root): only for the merge (flattening loses an empty branch by construction); u has none
+
+EMPTY = '<empty branch>'
+DOTKEYS = ('a', 'b', 'a.b')
+
+
+def _build_e(items, root=dict, inner=dict):
+    """build() where the leaf marker EMPTY becomes an empty branch"""
+    tree = build(items, root, inner)
+
+    def walk(node):
+        for k in list(dict.keys(node)):
+            v = dict.__getitem__(node, k)
+            if isinstance(v, dict):
+                walk(v)
+            elif v == EMPTY:
+                dict.__setitem__(node, k, inner())
+    walk(tree)
+    return tree
+
+
+def gen_edge(tier):
+    n = 2 if tier == 'quick' else 3
+    dotted = lambda s, vs: any('a.b' in p for p in s)
+    for t in trees(DOTKEYS, 3, n, [1, None], need=dotted):
+        yield {'f': 'dot', 't': t}
+    for t in trees(DOTKEYS, 3 if tier == 'thorough' else 2, 2, [1], need=None):
+        yield {'f': 'dotpairs', 't': t}
+    for t in trees('ab', 3, n, [1, EMPTY], need=lambda s, vs: EMPTY in vs):
+        yield {'f': 'empty', 't': t}
+
+
+def check_edge(case):
+    from pyg_base import tree_items, tree_keys, tree_values, items_to_tree, tree_getitem, tree_update, Dict, dictattr
+    out = Out()
+    items = case['t']
+    types = _types()
+    if case['f'] == 'dot':
+        model = build(items)
+        flat = flatten(model)
+        for kind in ROOT_KINDS:
+            out.sub()
+            root, inner = types[kind]
+            t = build(items, root, inner)
+            snap = snapshot(t)
+            label = '%s tree %s' % (kind, show(model))
+            try:
+                got = tree_items(t)
+                ks, vs = tree_keys(t), tree_values(t)
+                out.call(3)
+                ok = sorted((g[:-1], repr(g[-1])) for g in got) == sorted((p, repr(v)) for p, v in flat)
+                if not ok:
+                    out.viol('items-differ', '%s: tree_items returned %s, expected the paths+leaves %s (any order)' % (label, show(got), show(flat)), kind=kind, dotted=True)
+                    continue
+                if [tuple(k) for k in ks] != [g[:-1] for g in got] or any(v is not g[-1] for v, g in zip(vs, got)) or len(vs) != len(got):
+                    out.viol('keys-values-order', '%s: tree_keys = %s, tree_values = %s but tree_items = %s' % (label, show(ks), show(vs), show(got)), fn='tree_keys', dotted=True)
+                for base in (None, dict, Dict, dictattr):
+                    back = items_to_tree(got) if base is None else items_to_tree(got, tree=base())
+                    out.call()
+                    if not isinstance(back, dict) or plain(back) != model:
+                        out.viol('roundtrip-differs', '%s: items_to_tree(tree_items(t)%s) = %s' % (label, '' if base is None else ', tree=%s()' % base.__name__, show(plain(back))),
+                                 kind=kind, dotted=True)
+                        break
+                for g in got:
+                    for spelled in (tuple(g[:-1]), list(g[:-1])):
+                        r = tree_getitem(t, spelled)
+                        out.call()
+                        if r is not g[-1]:
+                            out.viol('getitem-wrong', '%s: tree_getitem(t, %r) = %r, expected the leaf %r' % (label, spelled, r, g[-1]), spelling=type(spelled).__name__, dotted=True)
+                for name, f in (('tree_update(t,t)', lambda: tree_update(t, t)), ('tree_update(t,{})', lambda: tree_update(t, {})), ('tree_update({},t)', lambda: tree_update({}, t)),
+                                ('tree_update(Dict(),t)', lambda: tree_update(Dict(), t))) + ((('t+t', lambda: t + t),) if root is Dict else ()):
+                    r = f()
+                    out.call()
+                    if not isinstance(r, dict) or plain(r) != model:
+                        out.viol('identity-differs', '%s: %s = %s, expected t' % (label, name, show(plain(r))), op=name, dotted=True)
+            except Exception as e:
+                out.viol('raised', '%s: %s: %s' % (label, type(e).__name__, e), op='dotted-keys', exc=type(e).__name__)
+                continue
+            _mutated(out, snap, 't', 'dotted-keys', label)
+            out.nontrivial(kind)
+        out.cls('dotted-key')
+        return out
+
+    # ---- merges: 'dotpairs' = t x every u of the same family; 'empty' = t with empty branches x U2
+    if case['f'] == 'dotpairs':
+        us = [u for u in trees(DOTKEYS, 2, 2, [2])]
+        build_t = build
+    else:
+        us = family('U2')
+        build_t = _build_e
+    mt = build_t(items)
+    layouts = {'A': (dict, dict), 'B': (Dict, Dict), 'C': (dictattr, dictattr)}
+    for ui, uitems in enumerate(us):
+        mu = build(uitems)
+        if case['f'] == 'dotpairs' and not (any('a.b' in it[:-1] for it in items) or any('a.b' in it[:-1] for it in uitems)):
+            continue
+        out.sub()
+        flags = set()
+        expect = merge(mt, mu, (), flags)
+        for lk, (root, inner) in layouts.items():
+            t = build_t(items, root, inner)
+            u = build(uitems, root, inner)
+            ts, us_ = snapshot(t), snapshot(u)
+            ops = [('tree_update', lambda: tree_update(t, u)), ('items_to_tree', lambda: items_to_tree(tree_items(u), tree=t))]
+            if root is Dict:
+                ops.append(('Dict+', lambda: t + u))
+            for op, f in ops:
+                label = lambda: '%s(t=%s %s, u=%s %s)' % (op, root.__name__, show(mt, 200), root.__name__, show(mu, 200))
+                try:
+                    r = f()
+                    out.call()
+                except Exception as e:
+                    out.viol('raised', '%s raised %s: %s' % (label(), type(e).__name__, e), op=op, exc=type(e).__name__, family=case['f'])
+                    continue
+                if not isinstance(r, dict) or plain(r) != expect:
+                    out.viol('merge-differs', '%s = %s, expected %s' % (label(), show(plain(r)), show(expect)), op=op, family=case['f'])
+                if _mutated(out, ts, 't', op, label) or _mutated(out, us_, 'u', op, label):
+                    break
+        out.cls('%s:%s' % (case['f'], klass(flags)))
+        if flags:
+            out.nontrivial('%s|%d' % (case['f'], ui))
+    return out
+
+
 # ------------------------------------------------------------------------------------------------ suite: update_chains
 
 CHAIN_LEAF = {'t': 1, 'u': 2, 'v': 'x', 'w': 3}
@@ -824,6 +952,13 @@ def suites(tier, seed):
                    'identity+content snapshots of every branch of t and u after every call; non-trivial = t and u share a first key (counted per pair in '
                    'u-families <= 700, per (t, outcome class) in the larger ones); %d (pair, ignore) combinations' % (plan_text(tier), pairs_count(tier)),
               bounds=dict(max_leaves_t=3 if quick else 4, max_leaves_u=2 if quick else 3, max_depth=3, ignore_lists=5, pair_ignore_combinations=pairs_count(tier))),
+        Suite('edge_trees', lambda: gen_edge(tier), check_edge,
+              rule='(1) every tree with <= %d leaves over the keys {a, b, a.b} (a key that CONTAINS a dot next to the path a -> b), depth <= 3, x 5 layouts: flatten, '
+                   'unzip, rebuild (onto nothing / dict / Dict / dictattr), getitem by tuple and list, merge identities; all pairs of such trees (t <= 2 leaves, u <= 2 '
+                   'leaves, depth <= 2%s) in 3 layouts through tree_update, items_to_tree(tree=t), Dict + dict; (2) every tree with <= %d leaves-or-EMPTY-branches over '
+                   '{a,b} holding at least one empty branch x U2 in 3 layouts: merge model, t and u untouched; non-trivial = per (tree, layout) resp. overlapping pair'
+                   % (2 if quick else 3, '' if quick else '; t depth <= 3', 2 if quick else 3),
+              bounds=dict(max_leaves=2 if quick else 3, max_depth=3, layouts=3)),
         Suite('update_chains', lambda: gen_chains(tier), check_chain,
               rule='all chains over the %d shapes with <= 2 leaves (keys ab, depth <= 3; leaves t:1 u:2 v:x w:3): r1 = tree_update(t,u); r2 = tree_update(r1,v) and '
                    'tree_update(v,r1) %s; after every call every kept operand and earlier result (t, u, v, w, r1, r2) is compared with its identity+content '
